@@ -60,6 +60,8 @@ pub fn scenarios() -> Vec<Scenario> {
         Scenario { name: "edit-then-empty-change-list", v1, msgs: vec![edit(0, 12, 0, 13, ""), Msg::Edit { changes: json!([]) }], v2: None },
         // diagnostics whose positions move with every edit: an outdated run must not be published last
         Scenario { name: "two-edits-moving-diagnostics", v1: v_err, msgs: vec![edit(0, 0, 0, 0, "\n"), edit(0, 0, 0, 0, "\n")], v2: None },
+        // one notification carrying two content changes, as the last edit of the document
+        Scenario { name: "multi-change-notification", v1, msgs: vec![Msg::Req { method: "textDocument/hover", params: tdp(0, 8) }, Msg::Edit { changes: json!([{"range": {"start": {"line": 0, "character": 7}, "end": {"line": 0, "character": 11}}, "text": "first"}, {"range": {"start": {"line": 0, "character": 7}, "end": {"line": 0, "character": 12}}, "text": "start"}]) }], v2: None },
         // two open documents: an edit of one cancels the running diagnostics of the other; both must end with the diagnostics of their final texts
         Scenario { name: "two-documents-edit-each", v1, msgs: vec![edit(0, 12, 0, 13, ""), Msg::Edit2 { changes: json!([{"range": {"start": {"line": 0, "character": 0}, "end": {"line": 0, "character": 0}}, "text": "// c\n"}]) }], v2: Some("pub fn other( {\n  1\n}\n") },
         Scenario { name: "refs-edit-completion", v1, msgs: vec![Msg::Req { method: "textDocument/references", params: json!({"textDocument": {"uri": doc_uri()}, "position": {"line": 4, "character": 4}, "context": {"includeDeclaration": true}}) }, edit(5, 2, 5, 3, "x * 2 + x"), Msg::Req { method: "textDocument/completion", params: tdp(1, 3) }], v2: None },
@@ -495,6 +497,28 @@ pub fn edit_during_request_probes() -> Vec<(String, Vec<(String, String)>)> {
         .collect()
 }
 
+/// The first document as the editor has it after all edits of the scenario (reference client model).
+fn client_final_text(sc: &Scenario) -> String {
+    let mut doc = crate::lsp::client::RefDoc::new(sc.v1);
+    for m in &sc.msgs {
+        let Msg::Edit { changes } = m else { continue };
+        for ch in changes.as_array().cloned().unwrap_or_default() {
+            let text = ch["text"].as_str().unwrap_or("");
+            match ch.get("range") {
+                None => doc = crate::lsp::client::RefDoc::new(text),
+                Some(r) => {
+                    let g = |v: &Value| (v["line"].as_u64().unwrap_or(0) as u32, v["character"].as_u64().unwrap_or(0) as u32);
+                    let (s, e) = (g(&r["start"]), g(&r["end"]));
+                    if let (Some(so), Some(eo)) = (doc.offset_of(s.0, s.1), doc.offset_of(e.0, e.1)) {
+                        doc.replace(so, eo, text);
+                    }
+                }
+            }
+        }
+    }
+    doc.without_cr()
+}
+
 pub fn judge(sc: &Scenario, seq: &Sequential, out: &RunOut) -> Vec<(String, String, String)> {
     let mut v = vec![];
     for (c, d) in &out.problems {
@@ -525,9 +549,14 @@ pub fn judge(sc: &Scenario, seq: &Sequential, out: &RunOut) -> Vec<(String, Stri
             }
         }
     }
+    // the client's own document (reference LSP client), not what another server session says
+    let client_text = client_final_text(sc);
+    if seq.final_text != client_text {
+        v.push(("text-diverged".into(), "final-text-sequential".into(), format!("even in the sequential session the server analyses {:?}, the client's final text is {client_text:?}", seq.final_text)));
+    }
     if let Some(t) = &out.final_text {
-        if *t != seq.final_text {
-            v.push(("text-diverged".into(), "final-text".into(), format!("after quiescence the server analyses {t:?}, the client's final text is {:?}", seq.final_text)));
+        if *t != client_text {
+            v.push(("text-diverged".into(), "final-text".into(), format!("after quiescence the server analyses {t:?}, the client's final text is {client_text:?}")));
         }
     }
     let last = out.diags.last().cloned().unwrap_or(Value::Null);
